@@ -28,12 +28,18 @@ Definition model13arith (c : Z * Z * Z * Z * Z * option (Z * Z)) : option (Z * Z
 Definition agree13arith (c : Z * Z * Z * Z * Z * option (Z * Z)) : bool :=
   let '(_, _, _, _, _, r) := c in opt_eqb zz_eqb r (model13arith c).
 
-(* setters: (W, a, p, kind, arg, result) kind 0 = prefix-length setter, 1 = network_offset setter *)
-Definition model13set (c : Z * Z * Z * Z * Z * option (Z * Z)) : option (Z * Z) :=
+(* setters: (W, a, p, kind, arg, result) kind 0 = prefix-length setter, 1 = network_offset setter;
+   result = (address, prefix length, NETWORK NUMBER of the changed object) -- the order of C13 is keyed on the network *)
+Definition zzz_eqb (x y : Z * Z * Z) : bool :=
+  (fst (fst x) =? fst (fst y)) && (snd (fst x) =? snd (fst y)) && (snd x =? snd y).
+Definition model13set (c : Z * Z * Z * Z * Z * option (Z * Z * Z)) : option (Z * Z * Z) :=
   let '(W, a, p, k, arg, _) := c in
-  res2opt (if k =? 0 then set_plen_ref W (mk a p) arg else set_offset_ref W (mk a p) arg).
-Definition agree13set (c : Z * Z * Z * Z * Z * option (Z * Z)) : bool :=
-  let '(_, _, _, _, _, r) := c in opt_eqb zz_eqb r (model13set c).
+  match (if k =? 0 then set_plen_ref W (mk a p) arg else set_offset_ref W (mk a p) arg) with
+  | Ok o => Some (addr o, plen o, netw W o)
+  | Raise _ => None
+  end.
+Definition agree13set (c : Z * Z * Z * Z * Z * option (Z * Z * Z)) : bool :=
+  let '(_, _, _, _, _, r) := c in opt_eqb zzz_eqb r (model13set c).
 
 (* sorted(): (W, input list, implementation's sorted list) *)
 Definition model13sort (c : Z * list (Z * Z) * list (Z * Z)) : list (Z * Z) :=
